@@ -19,6 +19,7 @@ static void* t_malloc(size_t sz) {
   return p;
 }
 static void t_free(void* p) {
+  if (!p) return;                                  // free(NULL) is legal
   auto it = g_live.find(p);
   if (it == g_live.end()) violation("bad-free", "mju_free of a block that is not live (double free or foreign pointer)");
   g_live.erase(it);
